@@ -1,7 +1,129 @@
+(* C09 — property theorems only.  Each is closed by [exact] of a lemma from
+   Proofs.v / Proofs_mem.v and followed by Print Assumptions.
+   A = the abstract book of Abs.v; [holds] = the monitor of Spec.v that is run on
+   the implementation's traces; m_* = the model of pstoremem; d_* = the model of pstoreds. *)
 From Coq Require Import List ZArith Bool.
-From Verif Require Import lib.Wire gen.Consts_c09 c09.Abs c09.Model_mem c09.Model_ds c09.Spec c09.Proofs.
+From Verif Require Import lib.Wire gen.Consts_c09 c09.Abs c09.Model_mem c09.Model_ds c09.Spec c09.Proofs_mem c09.Proofs.
 Import ListNotations.
 Local Open Scope Z_scope.
-Theorem c09_consts_order : ConnectedAddrTTL < PermanentAddrTTL.
+
+(* the TTL classes the models and histories mention, as /repo defines them now *)
+Theorem c09_ttl_classes_ordered : 0 < TempAddrTTL /\ TempAddrTTL < RecentlyConnectedAddrTTL /\
+  RecentlyConnectedAddrTTL < AddressTTL /\ AddressTTL < ConnectedAddrTTL /\ ConnectedAddrTTL < PermanentAddrTTL.
 Proof. exact consts_order_l. Qed.
-Print Assumptions c09_consts_order.
+Print Assumptions c09_ttl_classes_ordered.
+
+(* the monitor is satisfiable by an address book: it accepts every history of the abstract book *)
+Theorem c09_spec_trace_holds : forall ops, holds (a_trace a_init ops) = true.
+Proof. exact holds_a_l. Qed.
+Print Assumptions c09_spec_trace_holds.
+
+(* HEADLINE (in-memory book), partial: for every history in which every clock advance is
+   followed by a GC run before anything else, no UpdateAddrs TTL is negative, signed records list
+   suffix-free addresses and the clock stays below ConnectedAddrTTL, the model of pstoremem gives
+   exactly the abstract book's answers (GC's heap count aside) ... *)
+Theorem c09_mem_refines_spec_partial : forall ops, calm 0 ops = true ->
+  map norm_pair (m_trace m_init ops) = map norm_pair (a_trace a_init ops).
+Proof. exact mem_trace_eq_l. Qed.
+Print Assumptions c09_mem_refines_spec_partial.
+
+(* ... hence the monitor run on the implementation accepts every such trace of the model *)
+Theorem c09_mem_trace_holds_partial : forall ops, calm 0 ops = true -> holds (m_trace m_init ops) = true.
+Proof. exact mem_holds_l. Qed.
+Print Assumptions c09_mem_trace_holds_partial.
+
+(* memory bounded / heap discipline after such a history: everything stored is live, an entry is
+   in the expiry heap iff its TTL class is below connected (DESIGN 9 item 1), every stored signed
+   record belongs to a peer with a stored address *)
+Theorem c09_mem_bounded_after_gc_partial : forall ops, calm 0 ops = true ->
+  let m := m_run m_init ops in
+  (forall x, In x (m_ents m) -> live (m_now m) (me x) = true) /\
+  (forall x, In x (m_ents m) -> mheap x = negb (conn (ettl (me x)))) /\
+  (forall r, In r (m_recs m) -> m_has_peer (rp r) (m_ents m) = true).
+Proof. exact mem_state_l. Qed.
+Print Assumptions c09_mem_bounded_after_gc_partial.
+
+(* the full statement (no hypothesis) is FALSE of the faithful model of pstoremem *)
+Theorem c09_mem_refines_spec_refuted :
+  holds (m_trace m_init wit_stale_seq) = false /\ holds (m_trace m_init wit_stale_class) = false /\
+  holds (m_trace m_init wit_resurrect) = false /\ holds (m_trace m_init wit_lapsed_record) = false /\
+  holds (m_trace m_init wit_suffix) = false.
+Proof. exact mem_refuted_l. Qed.
+Print Assumptions c09_mem_refines_spec_refuted.
+
+(* ... and of the faithful model of pstoreds (cache off / on, full-purge / lookahead GC) *)
+Theorem c09_ds_refines_spec_refuted :
+  holds (d_trace (d_init false 0) wit_lapsed_record) = false /\
+  holds (d_trace (d_init true 0) wit_lapsed_record) = false /\
+  holds (d_trace (d_init true 0) wit_ds_set0) = false /\
+  holds (d_trace (d_init false 0) wit_ds_set0) = true /\
+  holds (d_trace (d_init true 0) wit_suffix) = false /\
+  holds (d_trace (d_init true (s_ 30)) wit_ds_gc) = false /\
+  holds (d_trace (d_init true 0) wit_ds_gc) = true.
+Proof. exact ds_refuted_l. Qed.
+Print Assumptions c09_ds_refines_spec_refuted.
+
+(* "same answers in both books" and "same answers with any cache size" are false of the models *)
+Theorem c09_mem_ds_equivalent_refuted :
+  map snd (m_trace m_init wit_stale_seq) <> map snd (d_trace (d_init true 0) wit_stale_seq) /\
+  map snd (d_trace (d_init false 0) wit_ds_set0) <> map snd (d_trace (d_init true 0) wit_ds_set0).
+Proof. exact mem_ds_differ_l. Qed.
+Print Assumptions c09_mem_ds_equivalent_refuted.
+
+(* "same answers after close and reopen" is false of the model of pstoreds with a cache *)
+Theorem c09_ds_reopen_equiv_refuted :
+  last (map snd (d_trace (d_init true 0) (wit_reopen false))) ONone <>
+  last (map snd (d_trace (d_init true 0) (wit_reopen true))) ONone.
+Proof. exact ds_reopen_differs_l. Qed.
+Print Assumptions c09_ds_reopen_equiv_refuted.
+
+(* the two repaired defects (DESIGN 9 items 1 and 2) are absent from both models *)
+Theorem c09_repaired_defects_absent :
+  holds (m_trace m_init wit_fixed1) = true /\ holds (d_trace (d_init true 0) wit_fixed1) = true /\
+  holds (m_trace m_init wit_fixed2) = true /\ holds (d_trace (d_init false 0) wit_fixed2) = true /\
+  snd (last (d_trace (d_init false 0) wit_fixed2) (OPeers, ONone)) = OList [2].
+Proof. exact fixed_witnesses_l. Qed.
+Print Assumptions c09_repaired_defects_absent.
+
+(* ---- the sentences of the property, about the abstract book -------------------- *)
+Theorem c09_expired_never_returned : forall ops p a,
+  let s := a_run a_init ops in
+  In a (a_addrs s p) -> exists e, In e (a_ents s) /\ ep e = p /\ ea e = a /\ a_now s < eexp e.
+Proof. exact expired_never_returned_l. Qed.
+Print Assumptions c09_expired_never_returned.
+
+Theorem c09_record_gone_when_no_live_addr : forall ops p,
+  let s := a_run a_init ops in a_getrec s p <> 0 -> a_addrs s p <> [].
+Proof. exact record_needs_live_l. Qed.
+Print Assumptions c09_record_gone_when_no_live_addr.
+
+Theorem c09_add_never_shortens : forall s p addrs ttl e, a_ok s -> In e (a_ents s) ->
+  exists e', In e' (a_ents (a_add s p addrs ttl)) /\ ep e' = ep e /\ ea e' = ea e /\
+             ettl e <= ettl e' /\ eexp e <= eexp e'.
+Proof. exact add_never_shortens_l. Qed.
+Print Assumptions c09_add_never_shortens.
+
+Theorem c09_nonpositive_ttl_removes_exactly : forall s p addrs ttl, a_ok s -> ttl <= 0 ->
+  a_ents (a_set s p addrs ttl) =
+  filter (fun e => negb ((ep e =? p) && zmem (ea e) (clean_addrs addrs))) (a_ents s).
+Proof. exact set_nonpositive_removes_exactly_l. Qed.
+Print Assumptions c09_nonpositive_ttl_removes_exactly.
+
+Theorem c09_record_seq_monotone : forall s p seq id addrs ttl r,
+  find_rec p (a_recs s) = Some r -> snd (a_consume s p seq id addrs ttl) = true -> rseq r <= seq.
+Proof. exact record_seq_monotone_l. Qed.
+Print Assumptions c09_record_seq_monotone.
+
+(* ---- non-vacuity ------------------------------------------------------------------ *)
+Example c09_calm_history_exists : calm 0 calm_example = true /\
+  map snd (m_trace m_init calm_example) =
+  [OVal 1; ONone; ONone; ONone; OSizes 2 1 2; OList [1]; OList []; ONone; OVal 0; OVal 1; ONone; OSizes 0 0 0; OVal 0; ONone].
+Proof. exact calm_example_l. Qed.
+
+Example c09_monitor_rejects_bad_traces :
+  holds [(OAdd 1 (s_ 120) [(1, 0)], ONone); (OAdvance (s_ 120), ONone); (OAddrs 1, OList [1])] = false /\
+  holds [(OAdd 1 (s_ 120) [(1, 0)], ONone); (OAdvance (s_ 120), ONone); (OGC, OSizes 1 0 0)] = false /\
+  holds [(OAdd 1 (s_ 120) [(1, 0)], ONone); (OAdvance (s_ 120), ONone); (OGC, OSizes 0 0 0); (OPeers, OList [1])] = false /\
+  holds [(OConsume 1 5 1 (s_ 120) false [(1, 0)], OVal 1); (OConsume 1 4 2 (s_ 120) false [(1, 0)], OVal 1)] = false /\
+  holds [(OAdd 1 (s_ 120) [(1, 0)], ONone); (OAdvance (s_ 119), ONone); (OAddrs 1, OList [1])] = true.
+Proof. exact monitor_rejects_l. Qed.
